@@ -89,6 +89,9 @@ pub enum Ev {
     /// 4 = graceful stop, start, transaction `late` and kill before the restored subscriptions
     /// got to run (their tasks are held at the start of run_restore)
     RestartS { kind: u8, late: Option<Vec<Stmt>>, template: usize },
+    /// every listener of subscription `sub` has been gone for MAX_UNSUB_TIME: the calls
+    /// `process_sub_channel` makes then (remove it from the manager, cancel it)
+    Expire { sub: usize },
 }
 
 struct Sub {
@@ -102,6 +105,8 @@ struct Sub {
     events_since_flush: u64,
     last_result: Vec<String>,
     dead: bool,
+    /// cancelled by the node itself (no listener for too long); implies `dead`
+    cancelled: bool,
 }
 
 struct Client {
@@ -251,7 +256,7 @@ impl World {
 
     async fn subscribe(&mut self, template: usize) -> R<Result<(), Violation>> {
         let (class, _table, sql) = TEMPLATES[template % TEMPLATES.len()];
-        if self.subs.iter().any(|s| s.sql == sql) {
+        if self.subs.iter().any(|s| s.sql == sql && !s.cancelled) {
             return Ok(Ok(()));
         }
         let params = serde_json::from_value(json!({})).map_err(|e| SimError::Harness(e.to_string()))?;
@@ -272,7 +277,7 @@ impl World {
         if self.s.agent.subs_manager().get(&id).is_none() {
             return Err(SimError::Harness("no handle".into()));
         }
-        let mut sub = Sub { template, sql: sql.to_string(), id, body, pending: vec![], rows: BTreeMap::new(), last_change: 0, events_since_flush: 0, last_result: vec![], dead: false };
+        let mut sub = Sub { template, sql: sql.to_string(), id, body, pending: vec![], rows: BTreeMap::new(), last_change: 0, events_since_flush: 0, last_result: vec![], dead: false, cancelled: false };
         // initial snapshot
         let start = Instant::now();
         let mut eoq = false;
@@ -757,6 +762,58 @@ impl World {
         Ok(Ok(()))
     }
 
+    /// rows a (restored) subscription holds materialised, None when it has no handle
+    async fn materialised(&self, id: uuid::Uuid) -> R<Option<Vec<String>>> {
+        let Some(h) = self.s.agent.subs_manager().get(&id) else {
+            return Ok(None);
+        };
+        let conn = self.sub_conn(h.id())?;
+        let ncols = h.parsed_columns().len();
+        let cols: Vec<String> = (0..ncols).map(|i| format!("col_{i}")).collect();
+        let mut st = conn.prepare(&format!("SELECT {} FROM query", cols.join(",")))?;
+        let mut rows = st.query([])?;
+        let mut out = vec![];
+        while let Some(r) = rows.next()? {
+            let cells: Vec<SqliteValue> = (0..ncols).map(|i| r.get::<_, SqliteValue>(i)).collect::<rusqlite::Result<_>>()?;
+            out.push(result_key(&cells));
+        }
+        out.sort();
+        Ok(Some(out))
+    }
+
+    /// C13: the node cancels a subscription nobody listens to any more.
+    async fn expire(&mut self, sub: usize) -> R<Result<(), Violation>> {
+        if self.subs.is_empty() {
+            return Ok(Ok(()));
+        }
+        let idx = sub % self.subs.len();
+        if self.subs[idx].dead {
+            return Ok(Ok(()));
+        }
+        verif::gate_release("bcast");
+        self.s.quiesce().await?;
+        let id = self.subs[idx].id;
+        let Some(handle) = self.s.agent.subs_manager().remove(&id) else {
+            return Ok(Ok(()));
+        };
+        handle.cleanup().await;
+        // its task ends by itself (the candidates channel closes with it)
+        let start = Instant::now();
+        while !handle.changes_tx().is_closed() {
+            if start.elapsed() > Duration::from_secs(30) {
+                return Ok(Err(vio("C13", "cancelled-subscription-task-never-ended", json!({"sql": self.subs[idx].sql}))));
+            }
+            tokio::time::sleep(Duration::from_micros(200)).await;
+        }
+        drop(handle);
+        let state = self.sub_state_on_disk(&self.s.dir.clone(), id);
+        self.log.push(format!("expire {}: state on disk {state:?}", self.subs[idx].sql));
+        self.stats.fault("subscription-cancelled-for-lack-of-listeners");
+        self.subs[idx].dead = true;
+        self.subs[idx].cancelled = true;
+        Ok(Ok(()))
+    }
+
     fn sub_state_on_disk(&self, dir: &Path, id: uuid::Uuid) -> Option<String> {
         let p = dir.join("subscriptions").join(id.as_simple().to_string()).join("sub.sqlite");
         if !p.exists() {
@@ -829,6 +886,7 @@ impl World {
                     let pending: Vec<String> = self
                         .subs
                         .iter()
+                        .filter(|s| !s.cancelled)
                         .filter(|s| self.sub_state_on_disk(&old_dir, s.id).as_deref() != Some("completed"))
                         .map(|s| s.sql.clone())
                         .collect();
@@ -899,6 +957,25 @@ impl World {
             .await;
             let status = resp.status().as_u16();
             let dir_exists = new_dir.join("subscriptions").join(sub.id.as_simple().to_string()).exists();
+            if sub.cancelled {
+                // the node gave this subscription up before it stopped and has not maintained it
+                // since: it is either gone for good, or - if it is served again - not stale
+                if status == 200 || self.s.agent.subs_manager().get(&sub.id).is_some() {
+                    let expected = self.query_node(&sub.sql).await?;
+                    let got = self.materialised(sub.id).await?;
+                    if got.as_ref().is_some_and(|g| *g != expected) {
+                        return Ok(Err(vio(
+                            "C13",
+                            "cancelled-subscription-served-from-stale-state-after-restart",
+                            json!({"sql": sub.sql, "state_on_disk": state, "kind": kind, "materialised": got, "query_on_database": expected}),
+                        )));
+                    }
+                    self.stats.probe("c13.cancelled-restored-but-current");
+                } else {
+                    self.stats.probe("c13.cancelled-not-restored");
+                }
+                continue;
+            }
             if !graceful {
                 // previous run did not finish cleanly: gone, clients are told to resubscribe
                 if status == 200 || self.s.agent.subs_manager().get(&sub.id).is_some() {
@@ -1230,6 +1307,10 @@ impl World {
                 self.stats.ev("RestartS");
                 self.restart_s(*kind, late.as_deref(), *template).await
             }
+            Ev::Expire { sub } => {
+                self.stats.ev("Expire");
+                self.expire(*sub).await
+            }
             Ev::Flush => {
                 self.stats.ev("Flush");
                 // nothing may be held back at a flush point
@@ -1298,6 +1379,22 @@ pub fn generate_for(seed: u64, check: &str) -> Vec<Ev> {
                 evs.push(Ev::Deliver { mode: r.below(4) as u8 });
             }
             evs.push(Ev::ReleaseBcast);
+            continue;
+        }
+        if lifecycle && r.chance(0.07) {
+            // a subscription nobody listens to is given up; the database moves on; restart
+            evs.push(Ev::Expire { sub: r.usize_below(3) });
+            for _ in 0..r.range(1, 3) {
+                evs.push(Ev::Write { node: 0, stmts: g.gen_write(&wl, 0) });
+            }
+            if r.chance(0.5) {
+                evs.push(Ev::Flush);
+            }
+            let kind = r.weighted(&[70, 15, 15]) as u8;
+            evs.push(Ev::RestartS { kind, late: None, template: r.usize_below(7) });
+            if r.chance(0.5) {
+                evs.push(Ev::Subscribe { template: r.usize_below(7) });
+            }
             continue;
         }
         if lifecycle && r.chance(0.12) {
@@ -1392,6 +1489,7 @@ pub async fn run_events(seed: u64, events: &[Ev], base: &Path, tag: &str) -> R<R
             Ev::AttachMidBatch { mode, .. } => format!("M{mode}"),
             Ev::AttachAfterEvent { .. } => "N".into(),
             Ev::RestartS { kind, late, .. } => format!("X{kind}{}", late.is_some() as u8),
+            Ev::Expire { .. } => "E".into(),
         };
         fnv(&mut sh, s.as_bytes());
     }
